@@ -105,6 +105,8 @@ static struct expect EX;
 static struct bb RESP;			/* the server's byte stream */
 static struct bb REQ;			/* the request bytes the server must receive */
 static size_t boundary_target = (size_t)-1;	/* offset of an interesting byte (for buffer-boundary placement) */
+static size_t chunk_off[64];			/* offsets of the chunk-size lines of the final response */
+static int nchunk_off;
 
 /* ---------- building a response from plan lines ---------- */
 static const char tokch[] = "abcdefghijklmnopqrstuvwxyzABCDEFGHIJKLMNOPQRSTUVWXYZ0123456789-";
@@ -294,6 +296,8 @@ build_response(const struct plan * P, const struct pline * l, int is_final, int 
 				extlen = 100;
 			if (boundary_target == (size_t)-1 && k == (nc > 1 ? 1 : 0))
 				boundary_target = RESP.n;	/* start of a chunk-size line */
+			if (nchunk_off < 64)
+				chunk_off[nchunk_off++] = RESP.n;
 			switch (style & 3) {
 			case 1: snprintf(tmp, sizeof(tmp), "%zX", sz); break;
 			case 2: snprintf(tmp, sizeof(tmp), "000%zx", sz); break;
@@ -316,6 +320,8 @@ build_response(const struct plan * P, const struct pline * l, int is_final, int 
 				R->cnt[N_CHUNK_OVER_1M]++;
 		}
 		/* last chunk, optional trailer section */
+		if (nchunk_off < 64)
+			chunk_off[nchunk_off++] = RESP.n;
 		bb_str(&RESP, (h64(bodyseed, 77) & 1) ? "0\r\n" : "000;last\r\n");
 		if (h64(bodyseed, 78) % 3 == 0)
 			bb_str(&RESP, "X-Trailer: t\r\n");
@@ -339,7 +345,9 @@ apply_mutations(const struct pline * m)
 		static const char * const chunklines[] = {
 			"\r\n", " \r\n", "   \t \r\n", "-5\r\n", "0x10\r\n", "fffffffffffffffff\r\n", "ffffffffffffffff\r\n",
 			"7fffffffffffffff\r\n", " 5\r\n", "\t5\r\n", "5", "g\r\n", "+5\r\n", "5 ; x\r\n", "\n", "\r", "0x\r\n", "-0\r\n",
-			"00000000000000000000000000000000000000000005\r\n", ";\r\n", "fffffffffffffffe\r\n", "-1\r\n" };
+			"00000000000000000000000000000000000000000005\r\n", ";\r\n", "fffffffffffffffe\r\n", "-1\r\n",
+			"fffffffffffffffd\r\n", "fffffffffffffff0\r\n", "ffffffffffffff00\r\n", "-3\r\n", "-16\r\n", "-4096\r\n",
+			"8000000000000000\r\n", "7ffffffffffffff0\r\n", "fffffffffffff000\r\n", "-2\r\n", "100000000\r\n" };
 		static const char * const statuslines[] = {
 			"HTTP/2.0 200 OK\r\n", "HTTP/1.1 99 X\r\n", "HTTP/1.1 600 X\r\n", "HTTP/1.1 99999999999999999999 X\r\n",
 			"HTTP/1.1 -200 X\r\n", "HTTP/1.1\r\n", "HTTP/1.1 200\r\n", "ICY 200 OK\r\n", "HTTP/1.1  200 OK\r\n", "\r\n",
@@ -385,6 +393,12 @@ apply_mutations(const struct pline * m)
 					break;
 				}
 			ls = hdrend;
+			if (nchunk_off > 0 && (a / 4) % 3 != 0 && i == 0) {
+				/* aim at a real chunk-size line of the body (the second and later ones matter too) */
+				ls = chunk_off[(a / 12) % (uint64_t)nchunk_off];
+				if (ls > RESP.n)
+					ls = hdrend;
+			} else
 			for (k = hdrend; k + 2 <= RESP.n && ln < (a % 4); k++)
 				if (memcmp(RESP.p + k, "\r\n", 2) == 0) {
 					ln++;
@@ -1042,6 +1056,7 @@ engine_run(const struct plan * P)
 		int seen = 0;
 
 		RESP.n = 0;
+		nchunk_off = 0;
 		boundary_target = (size_t)-1;
 		hb_max_interim = 0;
 		for (i = 0; i < P->n; i++) {
